@@ -10,7 +10,7 @@ import time
 
 import lib
 
-INVARIANTS = ["Totality", "SearchExact", "SearchMonotone", "AfterExact", "YearNear"]
+INVARIANTS = ["Totality", "SearchExact", "SearchMonotone", "AfterExact", "YearNear", "CalendarOK"]
 
 # family -> (N quick, N thorough)
 BOUNDS = {"cmd": (4, 5), "doc": (2, 2), "search": (3, 4), "after": (4, 5), "year": (2, 2)}
@@ -22,8 +22,9 @@ NRAND = {"quick": {"cmd": 1500, "doc": 2500, "search": 1500, "after": 3000},
 ASSUMPTIONS = [
     "characters underneath an abstract line class / document / time stamp are sampled from VERIF_SEED, not enumerated",
     "json, yaml, re and datetime.strptime are trusted; the driver cross-checks its renderings against them (R4)",
-    "time stamps are rendered only as valid dates of the format; year-less formats only with a sought year that is "
-    "not a leap year (there the documented 365-day shift and the year replacement coincide); 29 February excluded",
+    "time stamps are rendered only as valid dates of the format; a year-less stamp denotes its month/day/time in the "
+    "calendar year the 330-day rule selects (sought, previous or next year; leap sought years included), 29 February "
+    "is never rendered without a year; the model's day numbering is cross-checked against datetime.toordinal per call",
     "extra_bad_lines phrases are lower case; JSON noise lines do not start with { or [; a time_format list holds "
     "formats that all have or all lack a year and cannot be confused with one another; one time stamp per line",
     "bounds: exhaustive for the stated numbers of lines / document widths only; larger inputs are seeded random",
@@ -156,6 +157,9 @@ def run(prop, tier):
     val = lib.validate_traces("BaseParsersTrace", "BaseParsersTrace.cfg", [slim(t) for t in traces])
     print("timing: validation %.1fs (%d events, %d JVMs)" % (time.time() - t1, val["events"], val["jvms"]))
     rejected = dict((r["id"], r) for r in val["rejected"])
+    mach = [r for r in val["rejected"] if r["clause"].startswith("machinery:")]
+    if mach:
+        raise lib.MachineryError("model and environment disagree (R4): %s in trace %s" % (mach[0]["clause"], mach[0]["id"]))
     # binding self-test: accepted traces with one corrupted observation must be rejected
     pool = [t for t in traces if t["events"] and t["id"] not in rejected]
     selftest = [mutate(t, rng) for t in rng.sample(pool, min(len(pool), 60 if quick else 400))]
